@@ -42,6 +42,13 @@ func meet(a, b lat) lat {
 // bool constants, phis and negation only).  This is edge dominance with polarity: an effect that is
 // not in the result can only execute after control passed one of the cut edges.
 func Reach(fn *ssa.Function, cut map[Edge]bool) map[*ssa.BasicBlock]bool {
+	return ReachWith(fn, cut, nil)
+}
+
+// ReachWith is Reach with an oracle for branch conditions: decide may fix the outcome of an If (the successor
+// index taken) — used to evaluate a function's control skeleton for chosen values of a few numeric atoms while
+// every other branch stays two-way.
+func ReachWith(fn *ssa.Function, cut map[Edge]bool, decide func(*ssa.If) (int, bool)) map[*ssa.BasicBlock]bool {
 	if len(fn.Blocks) == 0 {
 		return nil
 	}
@@ -125,6 +132,12 @@ func Reach(fn *ssa.Function, cut map[Edge]bool) map[*ssa.BasicBlock]bool {
 			}
 			switch last := b.Instrs[len(b.Instrs)-1].(type) {
 			case *ssa.If:
+				if decide != nil {
+					if s, ok := decide(last); ok {
+						mark(Edge{b, s})
+						continue
+					}
+				}
 				switch eval(last.Cond, 0) {
 				case cTrue:
 					mark(Edge{b, 0})
